@@ -162,6 +162,19 @@ CONTROLS = [
     pos("location stamp dropped in _error", ["C06"], ["R6.2"],
         (L, '''        tok.location = self.current_location()
         raise LexError(msg, tok)''', '''        raise LexError(msg, tok)''')),
+    pos("_error logs and returns", ["C06"], ["R6.2", "R6.3"],
+        (L, """        tok.location = self.current_location()
+        raise LexError(msg, tok)""", """        tok.location = self.current_location()
+        self.errors = getattr(self, "errors", []) + [LexError(msg, tok)]""")),
+    pos("error built in a rule without the stamp", ["C06"], ["R6.2"],
+        (L, """        msg = "Invalid octal constant"
+        self._error(msg, t)""", """        msg = "Invalid octal constant"
+        raise LexError(msg, t)""")),
+    neg("error stamped and raised in the rule itself",
+        (L, """        msg = "Invalid octal constant"
+        self._error(msg, t)""", """        msg = "Invalid octal constant"
+        t.location = self.current_location()
+        raise LexError(msg, t)""")),
     pos("bracket mismatch tolerated", ["C06"], ["R6.4"],
         (P, '''                    if tok.type != ">" and expected != ">":
                         raise self._parse_error(tok, expected)
